@@ -346,7 +346,13 @@ impl World {
             .with_executor(exec.clone())
             .with_verif_transport(script.factory(vec![address.clone()]))
             .build();
-        let mut litep2p = Litep2p::new(config).map_err(|e| format!("Litep2p::new failed: {e:?}"))?;
+        let litep2p = Litep2p::new(config).map_err(|e| format!("Litep2p::new failed: {e:?}"))?;
+        let address = address.with(Protocol::P2p(peer.into()));
+        self.finish_node(idx, litep2p, script, exec, peer, address);
+        Ok(idx)
+    }
+
+    fn finish_node(&mut self, idx: usize, mut litep2p: Litep2p, script: ScriptHandle, exec: Arc<CaptureExecutor>, peer: PeerId, address: Multiaddr) {
         let (cmd_tx, mut cmd_rx) = tokio::sync::mpsc::unbounded_channel::<NodeCmd>();
         let events: Arc<Mutex<Vec<TransportEvent>>> = Arc::new(Mutex::new(Vec::new()));
         let log: Arc<Mutex<Vec<NodeLog>>> = Arc::new(Mutex::new(Vec::new()));
@@ -382,7 +388,7 @@ impl World {
         });
         self.nodes.push(SimNode {
             peer,
-            address: address.with(Protocol::P2p(peer.into())),
+            address,
             script,
             exec,
             cmd: cmd_tx,
@@ -397,6 +403,25 @@ impl World {
         self.dial_ordinal.push(0);
         self.opened.push(BTreeMap::new());
         self.absorb_spawned();
+    }
+
+    /// E4: a node over the REAL TCP transport (loopback, ephemeral port, `nodelay`). Its connections, substreams and
+    /// closures are handled by litep2p's own `TcpTransport` / `TcpConnection`; `pump_net` has nothing to do for it.
+    pub fn add_tcp_node(&mut self, keypair_seed: u64, builder: ConfigBuilder) -> Result<usize, String> {
+        let idx = self.nodes.len();
+        let script = ScriptHandle::new();
+        let exec = Arc::new(CaptureExecutor::default());
+        let keypair = crate::util::keypair(keypair_seed);
+        let peer = PeerId::from_public_key(&litep2p::crypto::PublicKey::Ed25519(keypair.public()));
+        let tcp = litep2p::transport::tcp::config::Config {
+            listen_addresses: vec!["/ip4/127.0.0.1/tcp/0".parse().unwrap()],
+            nodelay: true,
+            ..Default::default()
+        };
+        let config = builder.with_keypair(keypair).with_executor(exec.clone()).with_tcp(tcp).build();
+        let litep2p = Litep2p::new(config).map_err(|e| format!("Litep2p::new failed: {e:?}"))?;
+        let address = litep2p.listen_addresses().next().cloned().ok_or("no listen address")?;
+        self.finish_node(idx, litep2p, script, exec, peer, address);
         Ok(idx)
     }
 
